@@ -2,6 +2,7 @@
 executor over the real ast, turns outcomes into obligations and discharges them."""
 from __future__ import annotations
 
+import os
 import time
 import traceback
 
@@ -10,7 +11,7 @@ import z3
 from . import smt
 from .callcontract import resolve_exc, spec_bool, spec_value, type_conds
 from .engine import Engine, Env, Obligation, State, Unsupported
-from .heap import Heap
+from .heap import Frozen, Heap
 from .smt import Val, fresh, get_ref, is_ref
 from .source import find_function
 from .values import SV, ClassRef, sv_ref
@@ -95,6 +96,10 @@ def verify_function(reg, qualname, opts=None) -> FunctionReport:
             st.ghost["stdout"] = (fresh("out_n0", smt.I), fresh("out_arr0", smt.ArrIV))
             pre.ghost["stdout"] = st.ghost["stdout"]
             st.assume(st.ghost["stdout"][0] >= 0)
+        if not c.modifies and not os.environ.get('PYVC_NOFREEZE'):
+            # empty frame: the container parameters keep their entry contents for the whole call
+            refs = {str(z3.simplify(get_ref(v.t))) for v in params.values() if isinstance(v, SV) and v.ty not in ("none", "bool", "int", "float", "str")}
+            st.heap.frozen = Frozen(dict(st.heap.arr), refs)
         for r in c.requires + c.defs:
             st.assume(spec_bool(eng, r, st))
         from .values import RefSet
@@ -129,6 +134,13 @@ def verify_function(reg, qualname, opts=None) -> FunctionReport:
                 res = resv
             else:
                 res = eng.as_val(s, res) if not isinstance(res, SV) else res
+            if c.ghost_on_return:
+                # ghost code at the return point: tag the result object (it must be a new object of this call)
+                eng.oblige(f"{qualname}.ghost.result_is_fresh#p{pidx}", s,
+                           z3.And(is_ref(res.t), get_ref(res.t) >= eng.entry_alloc), "post")
+                for gname, gexpr in c.ghost_on_return.items():
+                    gv = eng.as_val(s, spec_value(eng, gexpr, _entry_view(s, pre, params)))
+                    s.heap = s.heap.set_field(get_ref(res.t), "$" + gname, gv.t)
             if c.fresh:
                 eng.oblige(f"{qualname}.post.fresh#p{pidx}", s,
                            z3.And(is_ref(res.t), get_ref(res.t) >= eng.entry_alloc), "post")
@@ -190,48 +202,298 @@ def _smoke(qualname, status):
     return ob
 
 
+CHEAP = [["z3-mbqi", {}, 1500, 0], ["z3-ematch", smt.EMATCH, 6000, 0], ["z3-mbqi", {}, 6000, 0]]
+HINTED = [["z3-mbqi", {}, 3000, 0], ["z3-ematch", smt.EMATCH, 3000, 0], ["z3-mbqi", {}, 10000, 1], ["z3-ematch", smt.EMATCH, 20000, 1]]
+SEARCH = [["z3-mbqi", {}, 3000, 0], ["z3-ematch", smt.EMATCH, 6000, 0], ["z3-mbqi", {}, 10000, 1],
+          ["z3-ematch", smt.EMATCH, 20000, 1], ["z3-mbqi", {}, 30000, 2], ["z3-ematch", smt.EMATCH, 60000, 3]]
+
+
+class Query:
+    """the SMT-LIB text of one obligation (duplicate assumptions dropped), written once"""
+
+    def __init__(self, tmp, n, ob, subset=None):
+        seen = set()
+        self.index = []                 # position in ob.pc of every assertion written
+        uniq = []
+        for i, a in enumerate(ob.pc):
+            if a.get_id() in seen or (subset is not None and i not in subset):
+                continue
+            seen.add(a.get_id())
+            self.index.append(i)
+            uniq.append(a)
+        self.path = os.path.join(tmp, f"q{n}{'h' if subset is not None else ''}.smt2")
+        with open(self.path, "w") as f:
+            f.write("(set-logic ALL)\n" + smt.to_smt2(uniq, ob.goal))
+
+
+SOLVER_SLOTS = None      # cross-process semaphore set by cli.verify_many: at most that many solver processes at a time
+
+
+class _Slot:
+    def __enter__(self):
+        if SOLVER_SLOTS is not None:
+            SOLVER_SLOTS.acquire()
+
+    def __exit__(self, *a):
+        if SOLVER_SLOTS is not None:
+            SOLVER_SLOTS.release()
+
+
+def solve_job(path, stages, core=False):
+    """run pyvc.solve on the file in a fresh process; any failure of that process is an `unknown`"""
+    with _Slot():
+        return _solve_job(path, stages, core)
+
+
+def _solve_job(path, stages, core=False):
+    import json
+    import subprocess
+    import sys
+    wall = sum(st[2] for st in stages) * 4 / 1000 + 60
+    t0 = time.time()
+    try:
+        p = subprocess.run([sys.executable, "-m", "pyvc.solve"], input=json.dumps(dict(file=path, stages=stages, core=core)),
+                           capture_output=True, text=True, timeout=wall, cwd=os.path.dirname(os.path.dirname(os.path.abspath(__file__))))
+        out = json.loads(p.stdout)
+    except Exception as ex:
+        out = dict(status="unknown", stage=stages[-1][0], seconds=time.time() - t0, reason=f"solver process failed: {type(ex).__name__}", core=None)
+    return out
+
+
 def discharge(eng, rep, opts):
+    """Portfolio, budgets in z3 resource units (deterministic): neither quantifier-instantiation mode dominates on these
+    VCs (measured: 0.03 s vs unknown, in both directions); only `unsat` discharges.  Every query runs in a process of its
+    own (pyvc.solve: fresh z3 context, a solver crash is an `unknown`), `PYVC_THREADS` of them at a time.
+    Order: recorded proof hint (hints.py) -> cheap z3 stages -> cvc5 -> long z3 stage."""
+    import shutil
+    import tempfile
+    from concurrent.futures import ThreadPoolExecutor
+    from . import cvc5_backend, hints
     timeout = opts.get("timeout_ms", 10000)
-    failures = 0
+    threads = max(1, int(os.environ.get("PYVC_THREADS", "16")))
+    only = os.environ.get("PYVC_ONLY")
+    hint_data = hints.load(rep.qualname) if opts.get("hints", True) and not os.environ.get("PYVC_NOHINTS") else {}
+    keys = dict(zip(map(id, eng.obligations), hints.keys_for(eng.obligations)))
+    order = {id(ob): n for n, ob in enumerate(eng.obligations)}
+    slots = []          # one dict per obligation, in order
+    work = []           # (slot, obligation) still undecided
     for ob in eng.obligations:
         if ob.kind == "smoke":
             st = ob.smoke_status
-            rep.obligations.append(dict(name=ob.name, kind="smoke", status="unsat" if st != "unsat" else "vacuous",
-                                        seconds=0.0, backend="z3", line=None,
-                                        note=f"requires is {st}"))
-            continue
-        if z3.is_true(ob.goal):
-            rep.obligations.append(dict(name=ob.name, kind=ob.kind, status="unsat", seconds=0.0,
-                                        backend="simplifier", line=ob.lineno))
-            continue
-        # portfolio, budgets in z3 resource units (deterministic): neither quantifier-instantiation mode
-        # dominates on these VCs (measured: 0.03 s vs unknown, in both directions); only `unsat` discharges
-        stages = [("z3-mbqi", {}, 1500), ("z3-ematch", smt.EMATCH, 6000), ("z3-mbqi", {}, 6000),
-                  ("cvc5", None, 15000), ("z3-ematch", smt.EMATCH, timeout)]
-        if failures >= opts.get("full_effort_failures", 2):
-            # the function already fails: the remaining obligations get the two cheap stages only
-            stages = stages[:2]
-        r = None
-        secs = 0.0
-        backend = "z3"
-        for name, cfg, budget in stages:
-            if name == "cvc5":
-                if not opts.get("cvc5", True):
-                    continue
-                from . import cvc5_backend
-                r2 = cvc5_backend.check(ob.pc, ob.goal, budget)
-            else:
-                r2 = smt.check_valid(ob.pc, ob.goal, budget, config=cfg)
-            secs += r2.seconds
-            if r is None or r2.status != "unknown":
-                r = r2
-                backend = name
-            if r2.status != "unknown":
+            slots.append(dict(name=ob.name, kind="smoke", status="unsat" if st != "unsat" else "vacuous",
+                              seconds=0.0, backend="z3", line=None, note=f"requires is {st}"))
+        elif z3.is_true(ob.goal):
+            slots.append(dict(name=ob.name, kind=ob.kind, status="unsat", seconds=0.0, backend="simplifier", line=ob.lineno))
+        elif only and not any(x in ob.name for x in only.split(",")):
+            slots.append(dict(name=ob.name, kind=ob.kind, status="unsat", seconds=0.0, backend="skipped(debug)", line=ob.lineno))
+        else:
+            d = dict(name=ob.name, kind=ob.kind, status="unknown", seconds=0.0, backend="z3", line=ob.lineno, reason="")
+            slots.append(d)
+            work.append((d, ob))
+    tmp = tempfile.mkdtemp(prefix="pyvc_", dir=os.environ.get("PYVC_TMP") or "/var/tmp")
+    full = {}
+
+    def full_query(ob):
+        q = full.get(id(ob))
+        if q is None:
+            q = full[id(ob)] = Query(tmp, order[id(ob)], ob)
+        return q
+
+    def record(d, res, suffix=""):
+        d["seconds"] = round(d["seconds"] + res["seconds"], 4)
+        if res["status"] != "unknown" or not d.get("reason"):
+            d["status"], d["backend"], d["reason"] = res["status"], (res.get("stage") or "z3") + suffix, res.get("reason") or ""
+
+    def run(items, fn, need_full=True):
+        """fn(d, ob) -> result dict, for all items in parallel; returns the still undecided items (in order).
+        Everything that touches z3 terms (printing the query) happens here, in the main thread; the threads only wait
+        for solver processes."""
+        if need_full:
+            for d, ob in items:
+                full_query(ob)
+        left = []
+        with ThreadPoolExecutor(threads) as ex:
+            for (d, ob), res in zip(items, ex.map(lambda it: fn(*it), items)):
+                if res is None or res["status"] == "unknown":
+                    left.append((d, ob))
+        return left
+
+    try:
+        # stage 0: the recorded proof hint — a subset of the assumptions, so `unsat` of it is `unsat` of the whole
+        if hint_data and work:
+            hq = {}
+            for d, ob in work:
+                h = hint_data.get(keys[id(ob)])
+                if h:
+                    fps = set(h["fps"])
+                    hq[id(ob)] = (Query(tmp, order[id(ob)], ob, {i for i, a in enumerate(ob.pc) if hints.fingerprint(a) in fps}), h)
+
+            def by_hint(d, ob):
+                if id(ob) not in hq:
+                    return None
+                q, h = hq[id(ob)]
+                res = solve_job(q.path, HINTED)
+                if res["status"] != "unsat" and h.get("via") == "cvc5":
+                    with _Slot():
+                        r = cvc5_backend.check_file(q.path, 60000)
+                    res = dict(status=r.status, stage="cvc5", seconds=res["seconds"] + r.seconds, reason=r.reason)
+                if res["status"] == "unsat":
+                    record(d, res, "+hint")
+                    return res
+                d["seconds"] = round(d["seconds"] + res["seconds"], 4)
+                return None               # a hint that does not prove is no verdict
+            work = run(work, by_hint, need_full=False)
+
+        if opts.get("make_hints"):
+            make_hints(rep, work, keys, hint_data, run, full_query, record, tmp, order)
+            work = []
+
+        def by_cheap(d, ob):
+            res = solve_job(full_query(ob).path, CHEAP)
+            record(d, res)
+            return res
+        work = run(work, by_cheap)
+
+        # the expensive stages, a batch at a time: once a batch leaves something undecided the function fails anyway and
+        # the rest keeps the verdict of the cheap stages (bounds the time spent on a function that no longer verifies)
+        def by_cvc5(d, ob):
+            with _Slot():
+                r = cvc5_backend.check_file(full_query(ob).path, 90000)
+            res = dict(status=r.status, stage="cvc5", seconds=r.seconds, reason=r.reason)
+            record(d, res)
+            return res
+
+        def by_long(d, ob):
+            res = solve_job(full_query(ob).path, [["z3-ematch", smt.EMATCH, timeout, 0]])
+            record(d, res)
+            return res
+        batch = opts.get("full_effort_batch", threads)
+        while work:
+            cur, work = work[:batch], work[batch:]
+            if opts.get("cvc5", True):
+                cur = run(cur, by_cvc5)
+            cur = run(cur, by_long)
+            if cur:
                 break
-        ob.result = r
-        d = dict(name=ob.name, kind=ob.kind, status=r.status, seconds=round(secs, 4), backend=backend,
-                 line=ob.lineno)
-        if r.status != "unsat":
-            d["reason"] = r.reason
-            failures += 1
+    finally:
+        shutil.rmtree(tmp, ignore_errors=True)
+    for d in slots:
+        if d["status"] == "unsat":
+            d.pop("reason", None)
         rep.obligations.append(d)
+
+
+def make_hints(rep, work, keys, hint_data, run, full_query, record, tmp, order):
+    """(maintenance) find an unsat core for every obligation in `work`, check that the core alone proves the obligation
+    within the hint budgets, record it.  Obligations already proved through their recorded hint are not in `work`."""
+    from . import cvc5_backend, hints
+    n_new = [0]
+
+    def search(d, ob):
+        q = full_query(ob)
+        res = solve_job(q.path, SEARCH, core=True)
+        via = "z3"
+        core = res.get("core")
+        if core is None:
+            with _Slot():
+                c = cvc5_backend.core_file(q.path, len(q.index), 120000)
+            if c is None:
+                d["seconds"] = round(d["seconds"] + res["seconds"], 4)
+                d["status"], d["reason"], d["backend"] = "unknown", "no proof found for a hint", "hint-search"
+                return dict(status="unknown")
+            core, via = c, "cvc5"
+        d["seconds"] = round(d["seconds"] + res["seconds"], 4)
+        found[id(ob)] = ({q.index[i] for i in core}, via)
+        return dict(status="unknown")
+
+    found = {}
+    all_work = list(work)
+    run(work, search)
+    # second chance: only the assumptions that some other proof of this function used (sibling obligations have similar
+    # proofs; the union of their cores is a fraction of the path condition) -- first those of obligations with the same
+    # name up to the invariant number, then all
+    def fps_of(pred):
+        u = set()
+        for d2, ob2 in all_work:
+            if id(ob2) in found and pred(ob2):
+                u |= {hints.fingerprint(ob2.pc[i]) for i in found[id(ob2)][0]}
+        for k, h in hint_data.items():
+            if pred_key(pred, k):
+                u |= set(h["fps"])
+        return u
+
+    def pred_key(pred, k):
+        class _O:
+            name = k.rsplit("@", 1)[0]
+        return pred(_O)
+    import re as _re
+    stem = lambda name: _re.sub(r"\.(inv|post\.|pre\.)\d+", ".", name)
+    for rnd in (0, 1):
+        missing = [(d, ob) for d, ob in all_work if id(ob) not in found]
+        if not missing:
+            break
+        sib = {}
+        for d, ob in missing:
+            u = fps_of((lambda o, st=stem(ob.name): stem(o.name) == st) if rnd == 0 else (lambda o: True))
+            sub_idx = {i for i, a in enumerate(ob.pc) if hints.fingerprint(a) in u}
+            if sub_idx:
+                sib[id(ob)] = Query(tmp, f"{order[id(ob)]}u{rnd}", ob, sub_idx)
+
+        def by_siblings(d, ob):
+            q = sib.get(id(ob))
+            if q is None:
+                return dict(status="unknown")
+            res = solve_job(q.path, SEARCH[:4], core=True)
+            d["seconds"] = round(d["seconds"] + res["seconds"], 4)
+            if res.get("core") is not None:
+                found[id(ob)] = ({q.index[i] for i in res["core"]}, "z3")
+            return dict(status="unknown")
+        run(missing, by_siblings, need_full=False)
+
+    work = [it for it in all_work if id(it[1]) in found]
+    first_core = {k: v[0] for k, v in found.items()}
+    # re-core once on the core itself (usually much smaller) ...
+    sub = {id(ob): Query(tmp, f"{order[id(ob)]}s", ob, found[id(ob)][0]) for d, ob in work}      # main thread
+
+    def recore(d, ob):
+        hq = sub[id(ob)]
+        r2 = solve_job(hq.path, HINTED, core=True)
+        if r2.get("core") is not None and len(r2["core"]) < len(hq.index):
+            found[id(ob)] = ({hq.index[i] for i in r2["core"]}, found[id(ob)][1])
+        return dict(status="unknown")
+    run(work, recore, need_full=False)
+    sub = {id(ob): Query(tmp, f"{order[id(ob)]}t", ob, found[id(ob)][0]) for d, ob in work}
+    sub1 = {id(ob): Query(tmp, f"{order[id(ob)]}v", ob, first_core[id(ob)]) for d, ob in work if first_core[id(ob)] != found[id(ob)][0]}
+
+    # ... then require the hint budgets to suffice
+    def confirm(d, ob):
+        hq = sub[id(ob)]
+        via = found[id(ob)][1]
+        r3 = solve_job(hq.path, HINTED)
+        if r3["status"] != "unsat" and id(ob) in sub1:
+            # the smaller core was found with tracking literals and does not reprove without them: keep the first one
+            hq = sub1[id(ob)]
+            r3 = solve_job(hq.path, HINTED)
+            if r3["status"] == "unsat":
+                found[id(ob)] = (first_core[id(ob)], via)
+        if r3["status"] != "unsat":
+            with _Slot():
+                r = cvc5_backend.check_file(hq.path, 60000)
+            if r.status != "unsat":
+                d["status"], d["reason"], d["backend"] = "unknown", "core found but not reproved within the hint budget", "hint-search"
+                return dict(status="unknown")
+            via = "cvc5"
+        found[id(ob)] = (found[id(ob)][0], via)
+        d["status"], d["backend"], d["reason"] = "unsat", via + "+newhint", ""
+        return dict(status="unsat")
+    failed = {id(ob) for d, ob in run(work, confirm, need_full=False)}
+    for d, ob in work:
+        if id(ob) not in failed:
+            sel, via = found[id(ob)]
+            hint_data[keys[id(ob)]] = dict(fps=sorted({hints.fingerprint(ob.pc[i]) for i in sel}), via=via, n=len(sel), of=len(full_query(ob).index))
+            n_new[0] += 1
+    live = set(keys.values())
+    for k in [k for k in hint_data if k not in live]:
+        del hint_data[k]
+    hints.save(rep.qualname, hint_data)
+    rep.detail = (rep.detail or "") + f" hints: {n_new[0]} new, {len(hint_data)} total"
